@@ -54,7 +54,8 @@ def getSc (j : Json) : Except String (Int × Sc) := do
       origLen := ← (← fld j "origLen").getNat?, letter := ← (← fld j "letter").getStr?,
       omit1 := ← (← fld j "omit1").getBool?, numTok := numTok, numOg := numOg,
       midPad := ← (← fld j "midPad").getStr?, endPad := ← (← fld j "endPad").getStr?,
-      mulTxt := ← (← fld j "mulTxt").getStr?, mulWritten := mulW })
+      mulTxt := ← (← fld j "mulTxt").getStr?, mulWritten := mulW,
+      mulOg := ← (match j.getObjVal? "mulOg" with | .ok v => getOptRat v | _ => pure none) })
 
 def ratJson (r : Rat) : Json := Json.arr #[toJson r.num, toJson r.den]
 
